@@ -3,6 +3,7 @@ PAX record round trip (C04): the record parser of `read_pax_header` reads back e
 `write_schily_xattr` emits, for every key without NUL/'=' and every (binary) value.
 -/
 import Sqfs.Proofs.TarHeader
+import Sqfs.Spec.TarHeader
 namespace Sqfs.Tar
 
 theorem digit_props (x : UInt8) (h : isDigit x = true) : isSpace x = false ∧ x ≠ 45 ∧ x ≠ 43 := by
@@ -144,54 +145,51 @@ theorem findHandler_schily (key : Bytes) : findHandler (schilyPrefix ++ key) = s
     simp
   rw [if_pos this]
 
-/-- the writer's record, with its total length `L` in front -/
-theorem schilyRecord_shape (key value : Bytes) :
-    ∃ L, schilyRecord key value = decStr L ++ 32 :: (schilyPrefix ++ key ++ 61 :: value ++ [10]) ∧
-      (schilyRecord key value).length = L ∧ numDigits L + 1 < L := by
-  refine ⟨13 + key.length + value.length + 3 + prefixDigitLen (13 + key.length + value.length + 3), ?_, ?_, ?_⟩
-  · unfold schilyRecord
-    have hp : schilyPrefix.length = 13 := by decide
-    simp only [hp, List.append_assoc, List.cons_append, List.nil_append]
-  · unfold schilyRecord
-    have hp : schilyPrefix.length = 13 := by decide
-    simp only [hp, List.length_append, decStr_length, prefixDigitLen_fix, List.length_cons, List.length_nil]
+theorem paxRecord_shape (kw value : Bytes) :
+    ∃ L, paxRecord kw value = decStr L ++ 32 :: (kw ++ 61 :: value ++ [10]) ∧
+      (paxRecord kw value).length = L ∧ numDigits L + 1 < L := by
+  refine ⟨kw.length + value.length + 3 + prefixDigitLen (kw.length + value.length + 3), ?_, ?_, ?_⟩
+  · unfold paxRecord
+    simp only [List.append_assoc, List.cons_append, List.nil_append]
+  · unfold paxRecord
+    simp only [List.length_append, decStr_length, prefixDigitLen_fix, List.length_cons, List.length_nil]
     omega
   · rw [prefixDigitLen_fix]; omega
 
-theorem paxLine_schily (st : PaxState) (key value rest : Bytes) (hk : ∀ x ∈ key, x ≠ 0 ∧ x ≠ 61) :
-    paxLine false st (schilyRecord key value ++ rest) =
-      some ({ st with out := { st.out with xattr := (key, value) :: st.out.xattr } }, (schilyRecord key value).length) := by
-  obtain ⟨L, hrec, hL, hLbig⟩ := schilyRecord_shape key value
+/-- **the record parser of `read_pax_header`** (`strtol`, the in-place NUL edits, the blank skip, the key scan) on a well-formed
+    record: it hands exactly the keyword and the value bytes to the handler table and consumes exactly the record -/
+theorem paxLine_record (pc : PaxCfg) (st : PaxState) (kw value rest : Bytes) (hne : kw ≠ [])
+    (hk : ∀ x ∈ kw, x ≠ 0 ∧ x ≠ 61) (hsp : isSpace (kw.headD 0) = false) :
+    paxLine pc st (paxRecord kw value ++ rest) = paxApply pc st kw value (paxRecord kw value).length := by
+  obtain ⟨L, hrec, hL, hLbig⟩ := paxRecord_shape kw value
   rw [hL]
   have hDlen := decStr_length L
-  -- name the pieces
   generalize hD : decStr L = D at hrec hDlen
-  have hTlen : (D ++ 32 :: (schilyPrefix ++ key ++ 61 :: value ++ [10])).length = L := by rw [← hrec]; exact hL
-  have hl : schilyRecord key value ++ rest = D ++ 32 :: (schilyPrefix ++ key ++ 61 :: value ++ [10] ++ rest) := by
+  have hTlen : (D ++ 32 :: (kw ++ 61 :: value ++ [10])).length = L := by rw [← hrec]; exact hL
+  have hl : paxRecord kw value ++ rest = D ++ 32 :: (kw ++ 61 :: value ++ [10] ++ rest) := by
     rw [hrec]; simp only [List.append_assoc, List.cons_append]
   rw [hl]
   unfold paxLine
-  have hst : strtol10 (D ++ 32 :: (schilyPrefix ++ key ++ 61 :: value ++ [10] ++ rest)) = some (false, L, numDigits L) := by
+  have hst : strtol10 (D ++ 32 :: (kw ++ 61 :: value ++ [10] ++ rest)) = some (false, L, numDigits L) := by
     rw [← hD]; exact strtol10_decStr L 32 _ (by decide)
   rw [hst]
   simp only
   have hdrop : ∀ X : Bytes, (D ++ X).drop (numDigits L) = X := fun X => List.drop_left' hDlen
   rw [hdrop]
   simp only [List.headD_cons]
-  have hsp : isSpace 32 = true := by decide
+  have hsp32 : isSpace 32 = true := by decide
   have hc1 : ¬ (¬ isSpace 32 = true ∨ false = true ∨ L = 0) := by
-    simp only [hsp, not_true_eq_false, Bool.false_eq_true, false_or]; omega
+    simp only [hsp32, not_true_eq_false, Bool.false_eq_true, false_or]; omega
   simp only [hc1, if_false]
-  have hlen2 : ¬ L > (D ++ 32 :: (schilyPrefix ++ key ++ 61 :: value ++ [10] ++ rest)).length := by
-    have : (D ++ 32 :: (schilyPrefix ++ key ++ 61 :: value ++ [10] ++ rest)).length = L + rest.length := by
+  have hlen2 : ¬ L > (D ++ 32 :: (kw ++ 61 :: value ++ [10] ++ rest)).length := by
+    have : (D ++ 32 :: (kw ++ 61 :: value ++ [10] ++ rest)).length = L + rest.length := by
       rw [← hTlen]; simp only [List.length_append, List.length_cons, List.length_nil]; omega
     omega
   simp only [hlen2, if_false]
-  -- the record copy with its last byte replaced by NUL
-  have htake : (D ++ 32 :: (schilyPrefix ++ key ++ 61 :: value ++ [10] ++ rest)).take L =
-      (D ++ 32 :: (schilyPrefix ++ key ++ 61 :: value)) ++ [10] := by
-    have e : D ++ 32 :: (schilyPrefix ++ key ++ 61 :: value ++ [10] ++ rest) =
-        ((D ++ 32 :: (schilyPrefix ++ key ++ 61 :: value)) ++ [10]) ++ rest := by
+  have htake : (D ++ 32 :: (kw ++ 61 :: value ++ [10] ++ rest)).take L =
+      (D ++ 32 :: (kw ++ 61 :: value)) ++ [10] := by
+    have e : D ++ 32 :: (kw ++ 61 :: value ++ [10] ++ rest) =
+        ((D ++ 32 :: (kw ++ 61 :: value)) ++ [10]) ++ rest := by
       simp only [List.append_assoc, List.cons_append, List.nil_append]
     rw [e]
     apply List.take_left'
@@ -199,61 +197,138 @@ theorem paxLine_schily (st : PaxState) (key value rest : Bytes) (hk : ∀ x ∈ 
   rw [htake, List.dropLast_concat]
   have hp : ¬ numDigits L ≥ L := by omega
   simp only [hp, if_false]
-  have hrec' : (D ++ 32 :: (schilyPrefix ++ key ++ 61 :: value) ++ [0]) = D ++ (32 :: (schilyPrefix ++ key ++ 61 :: value ++ [0])) := by
+  have hrec' : (D ++ 32 :: (kw ++ 61 :: value) ++ [0]) = D ++ (32 :: (kw ++ 61 :: value ++ [0])) := by
     simp only [List.append_assoc, List.cons_append]
   rw [hrec', hdrop]
-  have htw : (32 :: (schilyPrefix ++ key ++ 61 :: value ++ [0])).takeWhile isSpace = [32] := by
-    rw [schilyPrefix_eq]
-    simp only [List.cons_append, List.takeWhile, hsp]
-    have : isSpace 83 = false := by decide
-    rw [this]
+  obtain ⟨k0, kt, rfl⟩ : ∃ k0 kt, kw = k0 :: kt := by
+    cases kw with
+    | nil => exact absurd rfl hne
+    | cons a b => exact ⟨a, b, rfl⟩
+  have hk0 : isSpace k0 = false := by simpa using hsp
+  have htw : (32 :: ((k0 :: kt) ++ 61 :: value ++ [0])).takeWhile isSpace = [32] := by
+    simp only [List.cons_append, List.takeWhile, hsp32, hk0]
   rw [htw]
   simp only [List.length_singleton]
   have hq : ¬ numDigits L + 1 ≥ L := by omega
   simp only [hq, if_false]
-  have hdrop2 : (D ++ 32 :: (schilyPrefix ++ key ++ 61 :: value ++ [0])).drop (numDigits L + 1) =
-      schilyPrefix ++ key ++ 61 :: value ++ [0] := by
-    have e : D ++ 32 :: (schilyPrefix ++ key ++ 61 :: value ++ [0]) = (D ++ [32]) ++ (schilyPrefix ++ key ++ 61 :: value ++ [0]) := by
+  have hdrop2 : (D ++ 32 :: ((k0 :: kt) ++ 61 :: value ++ [0])).drop (numDigits L + 1) =
+      (k0 :: kt) ++ 61 :: value ++ [0] := by
+    have e : D ++ 32 :: ((k0 :: kt) ++ 61 :: value ++ [0]) = (D ++ [32]) ++ ((k0 :: kt) ++ 61 :: value ++ [0]) := by
       simp only [List.append_assoc, List.cons_append, List.nil_append]
     rw [e]
     exact List.drop_left' (by simp [hDlen])
   simp only [hdrop2]
-  -- key
-  have hkey : (schilyPrefix ++ key ++ 61 :: value ++ [0]).takeWhile (fun c => decide (c ≠ 0 ∧ c ≠ 61)) = schilyPrefix ++ key := by
-    have e : schilyPrefix ++ key ++ 61 :: value ++ [0] = (schilyPrefix ++ key) ++ 61 :: (value ++ [0]) := by
+  have hkey : ((k0 :: kt) ++ 61 :: value ++ [0]).takeWhile (fun c => decide (c ≠ 0 ∧ c ≠ 61)) = k0 :: kt := by
+    have e : (k0 :: kt) ++ 61 :: value ++ [0] = (k0 :: kt) ++ 61 :: (value ++ [0]) := by
       simp only [List.append_assoc, List.cons_append]
     rw [e]
     apply takeWhile_append_stop
     · intro x hx
-      rcases List.mem_append.1 hx with h | h
-      · rw [schilyPrefix_eq] at h
-        simp only [List.mem_cons, List.not_mem_nil, or_false] at h
-        rcases h with h | h | h | h | h | h | h | h | h | h | h | h | h <;> (subst h; decide)
-      · have := hk x h
-        simp only [ne_eq, this.1, this.2, not_false_eq_true, and_self, decide_true]
+      have := hk x hx
+      simp only [ne_eq, this.1, this.2, not_false_eq_true, and_self, decide_true]
     · decide
   simp only [hkey]
-  have hafter : (schilyPrefix ++ key ++ 61 :: value ++ [0]).drop (schilyPrefix ++ key).length = 61 :: (value ++ [0]) := by
-    have e : schilyPrefix ++ key ++ 61 :: value ++ [0] = (schilyPrefix ++ key) ++ 61 :: (value ++ [0]) := by
+  have hafter : ((k0 :: kt) ++ 61 :: value ++ [0]).drop (k0 :: kt).length = 61 :: (value ++ [0]) := by
+    have e : (k0 :: kt) ++ 61 :: value ++ [0] = (k0 :: kt) ++ 61 :: (value ++ [0]) := by
       simp only [List.append_assoc, List.cons_append]
     rw [e]
     exact List.drop_left' rfl
   simp only [hafter]
-  have hne : (schilyPrefix ++ key).isEmpty = false := by rw [schilyPrefix_eq]; rfl
-  rw [hne]
-  simp only [Bool.false_eq_true, if_false, List.dropLast_concat, findHandler_schily]
-  simp only [applyHandler, Bool.false_eq_true, if_false, kindFlag, setFlag, true_or, if_true]
+  have hne' : (k0 :: kt).isEmpty = false := rfl
+  rw [hne']
+  simp only [Bool.false_eq_true, if_false, List.dropLast_concat]
+
+theorem schilyRecordRaw_eq (key value : Bytes) : schilyRecordRaw key value = paxRecord (schilyPrefix ++ key) value := by
+  unfold schilyRecordRaw paxRecord
+  simp only [List.length_append, List.append_assoc]
+
+theorem paxLine_schilyRaw (pc : PaxCfg) (hpc : pc.keepOrder = false) (st : PaxState) (key value rest : Bytes)
+    (hk : ∀ x ∈ key, x ≠ 0 ∧ x ≠ 61) :
+    paxLine pc st (schilyRecordRaw key value ++ rest) =
+      some ({ st with out := { st.out with xattr := (if pc.schilyDecode then xattrDecodeKey key else key, value) :: st.out.xattr } },
+        (schilyRecordRaw key value).length) := by
+  rw [schilyRecordRaw_eq]
+  rw [paxLine_record pc st (schilyPrefix ++ key) value rest (by rw [schilyPrefix_eq]; simp)
+    (by
+      intro x hx
+      rcases List.mem_append.1 hx with h | h
+      · rw [schilyPrefix_eq] at h
+        simp only [List.mem_cons, List.not_mem_nil, or_false] at h
+        rcases h with h | h | h | h | h | h | h | h | h | h | h | h | h <;> (subst h; decide)
+      · exact hk x h)
+    (by rw [schilyPrefix_eq]; rfl)]
+  unfold paxApply
+  simp only [findHandler_schily, applyHandler, hpc, Bool.false_eq_true, if_false, kindFlag, setFlag, true_or, if_true]
   have hdk : (schilyPrefix ++ key).drop 13 = key := List.drop_left' (by decide)
   rw [hdk]
 
-theorem schilyRecord_ne_nil (key value : Bytes) : schilyRecord key value ≠ [] := by
-  obtain ⟨L, _, hL, hbig⟩ := schilyRecord_shape key value
+/-! ### key escaping (`xattr_encode_keyword` / `xattr_decode_keyword`) -/
+
+theorem xattrDecode_encode (key : Bytes) : xattrDecodeKey (xattrEncodeKey key) = key := by
+  induction key with
+  | nil => rfl
+  | cons c t ih =>
+    unfold xattrEncodeKey
+    by_cases h1 : c = 37
+    · subst h1; simp only [if_true]; rw [xattrDecodeKey, ih]
+    · by_cases h2 : c = 61
+      · subst h2; simp only [if_neg h1, if_true]; rw [xattrDecodeKey, ih]
+      · simp only [if_neg h1, if_neg h2]
+        rw [xattrDecodeKey.eq_def]
+        split
+        · rename_i heq; exact absurd (List.cons.inj heq).1 h1
+        · rename_i heq; exact absurd (List.cons.inj heq).1 h1
+        · rename_i heq; obtain ⟨rfl, rfl⟩ := List.cons.inj heq; rw [ih]
+        · rename_i heq; cases heq
+
+theorem xattrEncode_clean (key : Bytes) (hk : ∀ x ∈ key, x ≠ 0) : ∀ x ∈ xattrEncodeKey key, x ≠ 0 ∧ x ≠ 61 := by
+  induction key with
+  | nil => intro x hx; cases hx
+  | cons c t ih =>
+    have iht := ih (fun y hy => hk y (List.mem_cons_of_mem _ hy))
+    have hc : c ≠ 0 := hk c (by simp)
+    intro x hx
+    unfold xattrEncodeKey at hx
+    by_cases h1 : c = 37
+    · simp only [h1, if_true, List.mem_cons] at hx
+      rcases hx with h | h | h | h
+      · rw [h]; decide
+      · rw [h]; decide
+      · rw [h]; decide
+      · exact iht x h
+    · by_cases h2 : c = 61
+      · subst h2
+        rw [if_neg (by decide), if_pos rfl] at hx
+        simp only [List.mem_cons] at hx
+        rcases hx with h | h | h | h
+        · rw [h]; decide
+        · rw [h]; decide
+        · rw [h]; decide
+        · exact iht x h
+      · simp only [if_neg h1, if_neg h2, List.mem_cons] at hx
+        rcases hx with h | h
+        · subst h; exact ⟨hc, h2⟩
+        · exact iht x h
+
+/-- the repaired writer's record through the repaired reader: every NUL-free key, '=' and '%' included -/
+theorem paxLine_schily (st : PaxState) (key value rest : Bytes) (hk : ∀ x ∈ key, x ≠ 0) :
+    paxLine {} st (schilyRecord key value ++ rest) =
+      some ({ st with out := { st.out with xattr := (key, value) :: st.out.xattr } }, (schilyRecord key value).length) := by
+  unfold schilyRecord
+  rw [paxLine_schilyRaw {} rfl st _ value rest (xattrEncode_clean key hk)]
+  simp only [if_true, xattrDecode_encode]
+
+theorem schilyRecordRaw_ne_nil (key value : Bytes) : schilyRecordRaw key value ≠ [] := by
+  rw [schilyRecordRaw_eq]
+  obtain ⟨L, _, hL, hbig⟩ := paxRecord_shape (schilyPrefix ++ key) value
   intro h; rw [h] at hL; simp at hL; omega
+
+theorem schilyRecord_ne_nil (key value : Bytes) : schilyRecord key value ≠ [] := schilyRecordRaw_ne_nil _ _
 
 /-- the whole payload of `write_schily_xattr` through the record loop of `read_pax_header` -/
 theorem paxLoop_schily (xs : List (Bytes × Bytes)) :
-    ∀ (fuel : Nat) (st : PaxState), (∀ kv ∈ xs, ∀ x ∈ kv.1, x ≠ 0 ∧ x ≠ 61) → xs.length + 1 ≤ fuel →
-      paxLoop false fuel st ((xs.map fun kv => schilyRecord kv.1 kv.2).flatten) =
+    ∀ (fuel : Nat) (st : PaxState), (∀ kv ∈ xs, ∀ x ∈ kv.1, x ≠ 0) → xs.length + 1 ≤ fuel →
+      paxLoop {} fuel st ((xs.map fun kv => schilyRecord kv.1 kv.2).flatten) =
         some { st with out := { st.out with xattr := xs.reverse ++ st.out.xattr } } := by
   induction xs with
   | nil =>
